@@ -3,6 +3,7 @@ package main
 import (
 	"crypto/sha256"
 	"fmt"
+	"go/ast"
 	"go/token"
 	gotypes "go/types"
 	"os"
@@ -20,6 +21,22 @@ type Loaded struct {
 	Pkgs    []*packages.Package
 	SSA     map[string]*ssa.Package
 	PkgDirs map[string]string
+	infos   []*gotypes.Info
+}
+
+// IsVarIdent: the identifier denotes a local variable / parameter / named result (not a field).
+func (l *Loaded) IsVarIdent(id *ast.Ident) bool {
+	for _, info := range l.infos {
+		if o, ok := info.Uses[id]; ok {
+			v, isVar := o.(*gotypes.Var)
+			return isVar && !v.IsField()
+		}
+		if o, ok := info.Defs[id]; ok {
+			v, isVar := o.(*gotypes.Var)
+			return isVar && !v.IsField()
+		}
+	}
+	return false
 }
 
 var repoDir = "/repo"
@@ -54,6 +71,9 @@ func Load(patterns ...string) (*Loaded, error) {
 		if len(p.GoFiles) > 0 {
 			l.PkgDirs[p.PkgPath] = filepath.Dir(p.GoFiles[0])
 		}
+		if p.TypesInfo != nil {
+			l.infos = append(l.infos, p.TypesInfo)
+		}
 	}
 	return l, nil
 }
@@ -71,21 +91,13 @@ func (l *Loaded) FindFunc(ct *Contract) *ssa.Function {
 	if t == nil {
 		return nil
 	}
-	for _, ty := range []interface{}{0, 1} {
-		var ms = l.Prog.MethodSets.MethodSet(t.Type())
-		if ty == 1 {
-			ms = l.Prog.MethodSets.MethodSet(ptrTo(t.Type()))
-		}
+	for _, ty := range []gotypes.Type{t.Type(), gotypes.NewPointer(t.Type())} {
+		ms := gotypes.NewMethodSet(ty)
 		for i := 0; i < ms.Len(); i++ {
-			if ms.At(i).Obj().Name() == ct.Func {
-				fn := l.Prog.MethodValue(ms.At(i))
-				// unwrap synthetic pointer-receiver wrappers to the declared method
-				if fn != nil && fn.Synthetic != "" {
-					if decl := l.Prog.FuncValue(ms.At(i).Obj().(*typesFunc)); decl != nil {
-						return decl
-					}
+			if f, ok := ms.At(i).Obj().(*gotypes.Func); ok && f.Name() == ct.Func && len(ms.At(i).Index()) == 1 {
+				if fn := l.Prog.FuncValue(f); fn != nil {
+					return fn
 				}
-				return fn
 			}
 		}
 	}
@@ -105,7 +117,3 @@ func (l *Loaded) SourceHash(fn *ssa.Function) string {
 	h := sha256.Sum256(data[s.Offset:e.Offset])
 	return fmt.Sprintf("%x", h[:])
 }
-
-type typesFunc = gotypes.Func
-
-func ptrTo(t gotypes.Type) gotypes.Type { return gotypes.NewPointer(t) }
